@@ -42,6 +42,156 @@ def struct_fields(db, self_ty):
     return [x["name"] for x in adt["variants"][0]["fields"] if not x["name"].startswith("_")]
 
 
+# ---- the URI that scopes what load_manifest caches is the URI of the Dataset that will read it --------------------------
+_PASS = ("deref", "as_ref", "clone", "as_str", "as_deref", "borrow", "to_owned", "as_mut", "cloned")
+
+
+def _norm(e):
+    """Strip references / smart-pointer hops / clones: the place the value was read from."""
+    while isinstance(e, tuple):
+        if e[0] in ("ref", "deref", "as"):
+            e = e[1]
+        elif e[0] == "call" and e[2] and (e[1] or "").split("::")[-1] in _PASS:
+            e = e[2][0]
+        else:
+            break
+    if not isinstance(e, tuple):
+        return ("?", repr(e))
+    if e[0] == "field":
+        if e[2].startswith("^"):
+            return ("var", e[2][1:])
+        return ("field", _norm(e[1]), e[2])
+    if e[0] == "call":
+        return ("call", (e[1] or "").split("::")[-1], tuple(_norm(a) for a in e[2]))
+    if e[0] == "unknown":
+        return ("local", e[1].split(" has ")[0])
+    return e
+
+
+def _subst(d, binding):
+    if not isinstance(d, tuple):
+        return d
+    if d[0] == "var" and d[1] in binding:
+        return binding[d[1]]
+    if d[0] == "param" and d[1] in binding:
+        return binding[d[1]]
+    if d[0] == "field":
+        return ("field", _subst(d[1], binding), d[2])
+    return d
+
+
+def _show(d):
+    if not isinstance(d, tuple):
+        return str(d)
+    if d[0] == "field":
+        return "%s.%s" % (_show(d[1]), d[2])
+    if d[0] == "var":
+        return d[1]
+    if d[0] == "call":
+        return "%s(%s)" % (d[1], ", ".join(_show(a) for a in d[2]))
+    return "%s" % (d[1],)
+
+
+def _named_param(fn, e):
+    """('param', n) of an fn item -> ('var', name) so that fn items and their async bodies speak the same language."""
+    if isinstance(e, tuple) and e[0] == "param":
+        nm = fn.locals[e[1]].get("name") if e[1] < len(fn.locals) else None
+        if nm:
+            return ("var", nm)
+    if isinstance(e, tuple) and e[0] == "local":
+        try:
+            nm = fn.locals[int(e[1].split("_")[-1])].get("name")
+        except (ValueError, IndexError):
+            nm = None
+        return ("local", nm or e[1])
+    if isinstance(e, tuple) and e[0] == "field":
+        return ("field", _named_param(fn, e[1]), e[2])
+    return e
+
+
+def _load_sites(db, root, depth=2, seen=()):
+    """[(fn, line, uri descriptor, session descriptor, via)] for every load_manifest reached from `root`'s family, through
+    helpers of the same crate up to `depth` calls deep (the helper's own parameters substituted by the caller's arguments)."""
+    out = []
+    for f in root.family():
+        if not f.focus:
+            continue
+        for i, t in f.cfg.calls():
+            n = name_of(t)
+            if n.endswith("Dataset::load_manifest"):
+                a = t["args"]
+                out.append((f, t.get("ln"), _named_param(f, _norm(expr_of(f, a[2]))), _named_param(f, _norm(expr_of(f, a[3]))), []))
+                continue
+            if depth <= 0 or not t.get("id"):
+                continue
+            g = db.fns.get(t["id"])
+            if g is None or not g.focus or g.parent or g.id in seen or g.root().id == root.id or g.crate != root.crate:
+                continue
+            inner = _load_sites(db, g, depth - 1, seen + (root.id,))
+            if not inner:
+                continue
+            binding = {}
+            for k, a in enumerate(t["args"]):
+                nm = g.locals[k + 1].get("name") if k + 1 < len(g.locals) else None
+                d = _named_param(f, _norm(expr_of(f, a)))
+                if nm:
+                    binding[nm] = d
+                binding[k + 1] = d
+            for (_, ln, u, s_, via) in inner:
+                out.append((f, t.get("ln"), _subst(u, binding), _subst(s_, binding), [g.path.split("::")[-1]] + via))
+    return out
+
+
+def check_load_scope(db, chk):
+    R = "AGREE-load-scope"
+    chk.rule(R, "load_manifest(store, location, uri, session) caches what it decodes (the index section) under "
+                "session.index_cache.for_dataset(uri); the Dataset built from that manifest reads it back under "
+                "for_dataset(<the uri given to checkout_manifest>): where one function loads a manifest with a session it "
+                "keeps and builds a Dataset from it, the two URIs are the same value (helpers inlined two calls deep)")
+    roots = {}
+    for f in db.fns.values():
+        if f.focus and f.crate == "lance" and any(name_of(t).endswith("Dataset::checkout_manifest") for _, t in f.cfg.calls()):
+            roots[f.root().id] = f.root()
+    n = 0
+    for root in sorted(roots.values(), key=lambda r: r.path):
+        builds = []
+        for f in root.family():
+            if not f.focus:
+                continue
+            for i, t in f.cfg.calls():
+                if name_of(t).endswith("Dataset::checkout_manifest"):
+                    a = t["args"]
+                    builds.append((f, t.get("ln"), _named_param(f, _norm(expr_of(f, a[2]))), _named_param(f, _norm(expr_of(f, a[5])))))
+        loads = _load_sites(db, root)
+        for f in root.family():
+            chk.analysed(f)
+        if not loads:
+            chk.info("%s builds a Dataset from a manifest it was handed (no load_manifest in reach)" % root.path)
+            continue
+        for (f, ln, u, s_, via) in loads:
+            n += 1
+            kept = any(_same_session(s_, bs) for (_, _, _, bs) in builds)
+            agree = [b for b in builds if b[2] == u]
+            chk.ob(R, "%s:%s" % (root.path, "/".join(via) or "direct"), bool(agree) or not kept,
+                   "load_manifest%s caches under for_dataset(%s); the Dataset is built with uri %s%s" % (
+                       (" (via %s)" % "/".join(via)) if via else "", _show(u), sorted(set(_show(b[2]) for b in builds)),
+                       "" if kept else " (throw-away session)"), f.loc(ln))
+    chk.floor(R, "load_manifest sites next to a Dataset construction", n, 3)
+
+
+def _same_session(a, b):
+    """Both descriptors name the session of the same owner (x.session, session(x), ^session ...)."""
+    def owner(d):
+        if isinstance(d, tuple) and d[0] == "field" and d[2] == "session":
+            return d[1]
+        if isinstance(d, tuple) and d[0] == "call" and d[1] == "session" and d[2]:
+            return d[2][0]
+        return d
+    if isinstance(a, tuple) and a[0] == "call" and a[1] == "default":
+        return False
+    return owner(a) == owner(b)
+
+
 def run(db, chk):
     R = "COVER-key"
     chk.rule(R, "key() uses every field of the key struct; prefixes within one cache are distinct")
@@ -130,6 +280,8 @@ def run(db, chk):
             cs = calls(f, "LanceCache::with_key_prefix")
             ok = len(cs) == 1 and (("arg", 2) in f.cfg.op_origins(cs[0][1]["args"][1]))
             chk.ob(R2, "for_dataset-prefixes-uri:%s" % file.split("/")[-1], ok, "for_dataset(uri) = with_key_prefix(uri)", f.loc())
+
+    check_load_scope(db, chk)
 
     R3 = "INCARNATION"
     chk.rule(R3, "session-cache keys must distinguish two incarnations of a table at the same URI and version")
